@@ -31,6 +31,8 @@ type C18Case struct {
 	SelfDiff int `json:",omitempty"`
 	// OddPath: the analysed directory has a name with a colon and a space in it (a legal directory name)
 	OddPath bool `json:",omitempty"`
+	// ViaLink: the directory is named through a symbolic link to it, written with a trailing separator ("current/")
+	ViaLink bool `json:",omitempty"`
 }
 
 func genC18(t *rapid.T) *C18Case {
@@ -79,6 +81,7 @@ func genC18(t *rapid.T) *C18Case {
 		}
 	}
 	c.OddPath = rapid.IntRange(0, 2).Draw(t, "oddpath") == 0
+	c.ViaLink = rapid.IntRange(0, 3).Draw(t, "vialink") == 0
 	c.Fail = rapid.IntRange(0, 3).Draw(t, "fail") == 0
 	c.Verb = rapid.SampledFrom([]string{"", "-q", "-v"}).Draw(t, "verb")
 	c.OutFile = rapid.Bool().Draw(t, "f")
@@ -101,6 +104,14 @@ func checkC18(c *C18Case, st *VStats) *VFailure {
 	defer os.RemoveAll(dir)
 	for _, f := range c.Extra {
 		writeFile(filepath.Join(dir, f.Path), []byte(f.Content))
+	}
+	if c.ViaLink {
+		link := strings.TrimRight(dir, string(os.PathSeparator)) + "-current"
+		if err := os.Symlink(dir, link); err == nil {
+			defer os.Remove(link)
+			dir = link + string(os.PathSeparator)
+			st.Class("directory named through a symbolic link with a trailing separator")
+		}
 	}
 	outDir := mkScratch()
 	defer os.RemoveAll(outDir)
